@@ -24,13 +24,15 @@ var DefectText = map[string]string{
 	"for-no-body":          "for x [p]",
 	"set-no-rhs":           "set a",
 	"use-undeclared-in-fn": "fn g { put $u }",
+	"modvar-registered":    "put $math:x",  // module registered on the Evaler, never imported by the generated programs
+	"modvar-unregistered":  "put $nomod:x", // no such module
 }
 
 // DefectKinds lists the kinds that are defects wherever they are injected (tmp-top-level and
 // del-non-local depend on the position and are only used at the top level / by the G direction).
 var NestableDefects = []string{"unclosed-quote", "unclosed-paren", "unclosed-list", "unclosed-brace", "bad-escape", "stray-paren",
 	"use-undeclared", "set-undeclared", "del-undeclared", "if-no-body", "try-alone", "try-else-no-catch", "var-qualified",
-	"fn-no-body", "while-no-body", "for-no-body", "use-undeclared-in-fn"}
+	"fn-no-body", "while-no-body", "for-no-body", "use-undeclared-in-fn", "modvar-registered", "modvar-unregistered"}
 
 // Bad is the form node of an injected defect.
 func Bad(kind string) *Node { return &Node{T: "bad", Name: kind} }
